@@ -7,6 +7,10 @@ props = [json.loads(l) for l in open(os.path.join(V, 'properties.jsonl'))]
 TRUST = "Trusted: go/types and go/ssa (x/tools v0.29.0) as a faithful view of /repo's working tree; anchor names (functions, fields) listed in the rule files; std library contracts; reviewed tables rules/exceptions.json. Loops are abstracted to 0/1 iterations in decision-list rules."
 
 CLAIMS = {
+ "C01": dict(
+   technique="interprocedural nil-link typestate (may-return-nil / dereferences-parameter summaries + guard-cut of nil tests), guard-cut rules for cross-object slice bounds and partial operations with a reviewed exception table, placeholder-balance path enumeration, must-pass-through for the result shape",
+   text="Decides four necessary conditions of panic-freedom on every path of the reachable module code: maybe-nil DOM links are only dereferenced under a nil test (26 sites rely on reviewed DOM invariants, each named), offsets taken from another value's length are bounded by a case-sensitive prefix/length test, constant indexes/assertions/divisions are guarded or structurally safe, start/end placeholders are balanced so the retainer's stack never underflows, Apply returns an error or a fresh div, and no goroutine is started. Termination, relational index arithmetic in pagination/pattern, and third-party panics are NOT decided.",
+   design="4/C01"),
  "C02": dict(
    technique="structural order-preservation rules on SSA: forward child loops, who-writes/how-writes rule for the sequence-carrying fields (append-to-self / shift-left delete idiom only), disjoint-window rule for the text builder, loop transition extraction of the emitters, must-pass-through of flushBlock",
    text="Decides that no step between the document-order walk and the concatenated output can reorder or duplicate: children are visited and attached first-to-last, the five sequence fields are only appended to or shrunk by the shift-left idiom and never sorted or overwritten, each Text gets a disjoint window of the collected nodes, emitters walk forward and skip exactly non-content elements, non-text elements flush pending text first, and captions/table text are rendered from the clone by the visibility-aware renderer. Not decided: which words are selected, and fabrication inside third-party code.",
